@@ -42,7 +42,7 @@ ASSUMPTIONS = [
 SHARDS = {'quick': 16, 'thorough': 16}
 CASES = {'quick': 150, 'thorough': 5000}
 
-MOD = st.fixed_dictionaries({'target': st.sampled_from(['file', 'file', 'file', 'file', 'dir', 'missing']), 'i': st.integers(0, 999),
+MOD = st.fixed_dictionaries({'target': st.sampled_from(['file', 'file', 'file', 'file', 'file', 'dir', 'missing', 'after-edit']), 'i': st.integers(0, 999),
                              'len': st.sampled_from(['zero', 'one', 'same', 'same', 'boundary', 'boundary+1', 'minus-sector', 'minus-one', 'plus-one'])})
 
 
@@ -133,6 +133,19 @@ def oracle(program, mods):
         dirs = sorted(p for p, e in m.t['iso'].items() if e['type'] == 'dir' and p != '/')
         tgt = mod['target']
         blob = None
+        pending = False
+        if tgt == 'after-edit':
+            # an edit between open() and the modification: the locations the object plans are then no longer those of the image
+            # file, so the modification has to be refused (and leave the file alone)
+            try:
+                kw = {'rr_name': 'zz9pending'} if m.rr else {}
+                iso.add_fp(io.BytesIO(b'p' * 5000), 5000, '/ZZ9P%d.;1' % k, **kw)
+                if mod['i'] % 2:
+                    iso.force_consistency()
+                pending = True
+            except Exception:  # noqa
+                pass
+            tgt = 'file'
         if tgt == 'file' and files:
             path = files[mod['i'] % len(files)]
             blob = m.blobs[m.t['iso'][path]['blob']]
@@ -148,6 +161,8 @@ def oracle(program, mods):
             continue
         if blob is not None and blob.bit and not blob.boot_refs:
             continue        # a former boot file whose boot info table the library keeps patching: bytes 8..63 are not predictable
+        if pending and tgt == 'file':
+            tgt = 'file-after-edit'
         if blob is not None and blob.boot_refs:
             # a file that El Torito boots from is described by the boot catalog (and a boot info table) as well: the library
             # documents no support for rewriting those in place, so the call has to be refused like one on a directory
@@ -171,10 +186,17 @@ def oracle(program, mods):
             run.stats['mods_refused'] += 1
             if post != pre:
                 failures.append(('C17/refused-but-changed/%s/%s' % (tgt, mod['len']), 'refusal', 'a refused modify_file_in_place (%s, %d -> %d bytes) changed the image file' % (tgt, old, nl)))
+            if pending:
+                run.c17.add('refused-after-edit')
+                break               # the object stays edited: nothing further can be modified in place
             if tgt == 'file' and same_sectors:
                 run.stats['legal_modification_refused'] = run.stats.get('legal_modification_refused', 0) + 1
             continue
         run.stats['mods_accepted'] += 1
+        if pending:
+            failures.append(('C17/accepted-but-must-refuse/after-edit/%s' % ('forced' if mod['i'] % 2 else 'lazy'), 'refusal',
+                             'modify_file_in_place was accepted although the object had been edited since it was opened (%d -> %d bytes)' % (old, nl)))
+            break
         if tgt != 'file' or not same_sectors:
             failures.append(('C17/accepted-but-must-refuse/%s/%s' % (tgt, 'sector-count-changes' if tgt == 'file' else tgt), 'refusal',
                              'modify_file_in_place on a %s with %d -> %d bytes was accepted' % (tgt, old, nl)))
